@@ -96,3 +96,28 @@ Proof.
   split; [exact K1|exact K3].
 Qed.
 Print Assumptions C07_compiled_comparison.
+
+(* ------------------------------------------------------------------ *)
+(* END TO END, from the TEXT  E1 op E2  (operands: number literal, string literal or predicate-free
+   path; minimal and one-space layouts): Compile succeeds and the value is the comparison of the
+   operand values — a boolean, never an error — which is the XPath 1.0 comparison wherever the
+   decision table above says the engine follows the recommendation. *)
+From XP.Spec Require Import Values.
+From XP.Proofs Require Import HashInj RoundTripOps RoundTripPaths EndToEndValues.
+
+Theorem C07_end_to_end_comparison : forall D has_ns hc rm rn rr,
+  hash_ok (hc D) (all_nodes D) ->
+  forall re_ok ns b o l r,
+  is_operand_px l -> is_operand_px r -> cmp_of (opname b) = Some o ->
+  xok (XBin b l r) -> 1 + osize l <= max_build_depth -> 1 + osize r <= max_build_depth ->
+  exists q,
+    compile re_ok (print_min (XBin b l r)) ns = Ok q /\
+    compile re_ok (print_sp (XBin b l r)) ns = Ok q /\
+    forall c, valid D c = true ->
+    exists m n, opval D has_ns l c m /\ opval D has_ns r c n /\
+      evaluate rm rn rr hc D has_ns q c = compare_values D o m n /\
+      (exists bb, evaluate rm rn rr hc D has_ns q c = Val (VBool bb)) /\
+      (forall x y, abs D m = Some x -> abs D n = Some y -> follows_spec o x y = true ->
+         evaluate rm rn rr hc D has_ns q c = Val (VBool (xcompare string_to_number o x y))).
+Proof. exact C07_text_comparison. Qed.
+Print Assumptions C07_end_to_end_comparison.
